@@ -171,13 +171,13 @@ UNIT = {
                     'let primitive = &changes[i_].1.0; i_ = i_ + 1; let ghost s0 = *self;'},
         {'rule': 'R7', 'regex': r'writeln!\(self\.backend,\s*"\{\} \{\} obj",\s*(.*?),\s*(.*?)\)\?;',
          'replace': r'hoist_write_obj_header(&mut self.backend, \1, \2)?;', 'count': 2},
-        {'rule': 'R7', 'find': 'primitive.serialize(&mut self.backend)?; writeln!(self.backend, "endobj")?;',
+        {'rule': 'R7', 'regex': r'primitive\.serialize\(&mut self\.backend\)\?;\s*writeln!\(self\.backend,\s*"(?:\\n)?endobj"\)\?;',
          'replace': 'proof { lemma_header_appended(s0.backend@, id, gen); } let ghost s1 = *self; '
                     'primitive.serialize(&mut self.backend)?; hoist_write_endobj(&mut self.backend)?; '
                     'proof { if placed(s1, id, gen) { lemma_placed_stable(s1, *self, id, gen); } '
                     'assert forall|j: int| 0 <= j < i_ - 1 implies placed(*self, *(#[trigger] changes@[j]).0, changes@[j].1.1) by '
                     '{ lemma_placed_stable(s0, *self, *changes@[j].0, changes@[j].1.1); } }'},
-        {'rule': 'R7', 'find': 'xref_and_trailer.serialize(&mut self.backend)?; writeln!(self.backend, "endobj")?;',
+        {'rule': 'R7', 'regex': r'xref_and_trailer\.serialize\(&mut self\.backend\)\?;\s*writeln!\(self\.backend,\s*"(?:\\n)?endobj"\)\?;',
          'replace': 'xref_and_trailer.serialize(&mut self.backend)?; hoist_write_endobj(&mut self.backend)?;'},
         {'rule': 'R1', 'find': 'let xref_pos = self.backend.len',
          'replace': 'let ghost s2 = *self; let xref_pos = self.backend.len'},
